@@ -165,9 +165,9 @@ def run(ctx):
     for d in range(1, depth + 1):
         hs += c15.legal_histories(d)
     for name, members in c15.fixed_archives(rnd):
-        mine = hs if ctx.tier == 'thorough' else rnd.sample(hs, min(len(hs), 40))
+        mine = hs if ctx.tier == 'thorough' else rnd.sample(hs, min(len(hs), 120))
         items.append((name, arc.archive(members), mine + histories_for(members, rnd, 0)))
-    for i in range(6 if ctx.tier == 'quick' else 150):
+    for i in range(30 if ctx.tier == 'quick' else 600):
         members = c15.random_archive(rnd)
         # owner-name extended headers and one member whose recorded CRC is wrong (extraction/check fail paths)
         for x in members:
